@@ -86,9 +86,27 @@ def addEntry (r : Resp) (kind : Kind) (header content : Bytes) : Bool × Resp :=
   else if content.contains 13 || content.contains 10 then (false, r)
   else (true, { r with hdrs := r.hdrs ++ [⟨kind, header, content⟩] })
 
-/-- `MHD_get_response_element_n_ (response, kind, key, key_len)`: index of the first match -/
-def findElement (hs : List Hdr) (kind : Kind) (key : Bytes) : Option Nat :=
-  hs.findIdx? (fun h => h.name.length == key.length && h.kind == kind && eqCaselessBin h.name key)
+/-- the test of `MHD_get_response_element_n_ (response, kind, key, key_len)`:
+    `header_size == key_len && kind == pos->kind && MHD_str_equal_caseless_bin_n_ (…)` -/
+def isElem (kind : Kind) (key : Bytes) (h : Hdr) : Bool := h.kind == kind && nameIs h.name key
+
+/-- header-kind entry named `key` -/
+def isHdr (key : Bytes) (h : Hdr) : Bool := isElem .header key h
+
+/-- remove the first entry satisfying `p` (`_MHD_remove_header` after a search loop):
+    the removed entry and the remaining list -/
+def eraseFirst (p : Hdr → Bool) : List Hdr → Option (Hdr × List Hdr)
+  | [] => none
+  | h :: t =>
+    if p h then some (h, t)
+    else match eraseFirst p t with
+      | some (x, t') => some (x, h :: t')
+      | none => none
+
+/-- replace the value of the first entry satisfying `p` -/
+def setValueFirst (p : Hdr → Bool) (v : Bytes) : List Hdr → List Hdr
+  | [] => []
+  | h :: t => if p h then { h with value := v } :: t else h :: setValueFirst p v t
 
 /-- assemble the merged "Connection" value: ["close"] [", "] [old] [", "] [norm] -/
 def mergeConn (insertClose : Bool) (old : Option Bytes) (norm : Bytes) : Bytes :=
@@ -103,9 +121,9 @@ def mergeConn (insertClose : Bool) (old : Option Bytes) (norm : Bytes) : Bytes :
 /-- `add_response_header_connection` -/
 def addHeaderConnection (r : Resp) (value : Bytes) : Ret × Resp :=
   if value.contains 13 || value.contains 10 then (.no, r) else
-  let hdrIdx : Option Nat := if r.fa.connHdr then findElement r.hdrs .header sConnection else none
+  let hdr : Option Hdr := if r.fa.connHdr then r.hdrs.find? (isHdr sConnection) else none
   let alreadyHasClose : Bool := if r.fa.connHdr then r.fa.connClose else false
-  let old : Option Bytes := hdrIdx.bind (fun i => r.hdrs[i]?.map (·.value))
+  let old : Option Bytes := hdr.map (·.value)
   let normLen := value.length + value.length / 2 + 1
   match removeTokenCaseless value sClose normLen with
   | none => (.no, r)
@@ -121,40 +139,39 @@ def addHeaderConnection (r : Resp) (value : Bytes) : Ret × Resp :=
       else if norm.isEmpty && alreadyHasClose then (.yes, r)
       else
         let v := mergeConn (valueHasClose && ! alreadyHasClose) old norm
-        match hdrIdx with
+        match hdr with
         | none =>
           -- FIX F4: `flags_auto |= …` (the unfixed code assigns, dropping the other bits)
           let fa' := { r.fa with connHdr := true, connClose := r.fa.connClose || valueHasClose }
           (.yes, { r with hdrs := ⟨.header, sConnection, v⟩ :: r.hdrs, fa := fa' })
-        | some i =>
-          let hs' := r.hdrs.modify i (fun h => { h with value := v })
+        | some _ =>
+          let hs' := setValueFirst (isHdr sConnection) v r.hdrs
           let fa' := if valueHasClose && ! alreadyHasClose then { r.fa with connClose := true } else r.fa
           (.yes, { r with hdrs := hs', fa := fa' })
 
 /-- `del_response_header_connection` -/
 def delHeaderConnection (r : Resp) (value : Bytes) : Ret × Resp :=
-  match findElement r.hdrs .header sConnection with
+  match r.hdrs.find? (isHdr sConnection) with
   | none => (.no, r)
-  | some i =>
-    match r.hdrs[i]? with
-    | none => (.no, r)
-    | some h =>
-      match removeTokensCaseless h.value value with
-      | none => (.crash, r)
-      | some ⟨v', removed⟩ =>
-        -- the value is edited in place even when nothing is reported as removed
-        let r1 := { r with hdrs := r.hdrs.modify i (fun h => { h with value := v' }) }
-        if ! removed then (.no, r1)
-        else if v'.isEmpty then
-          (.yes, { r with hdrs := r.hdrs.eraseIdx i, fa := { r.fa with connHdr := false, connClose := false } })
-        else
-          let others := r1.fa.connHdr || r1.fa.transEnc || r1.fa.contentLength || r1.fa.date
-          let keep : Bool :=
-            if v'.length == 5 then v' == sClose
-            else if 7 < v'.length then v'.take 7 == sCloseSep
-            else false
-          if others && ! keep then (.yes, { r1 with fa := { r1.fa with connClose := false } })
-          else (.yes, r1)
+  | some h =>
+    match removeTokensCaseless h.value value with
+    | none => (.crash, r)
+    | some ⟨v', removed⟩ =>
+      -- nothing removed: the in-place editor rewrites every token onto itself, the value is unchanged
+      if ! removed then (.no, r)
+      else if v'.isEmpty then
+        match eraseFirst (isHdr sConnection) r.hdrs with
+        | some (_, hs') => (.yes, { r with hdrs := hs', fa := { r.fa with connHdr := false, connClose := false } })
+        | none => (.no, r)
+      else
+        let r1 := { r with hdrs := setValueFirst (isHdr sConnection) v' r.hdrs }
+        let others := r1.fa.connHdr || r1.fa.transEnc || r1.fa.contentLength || r1.fa.date
+        let keep : Bool :=
+          if v'.length == 5 then v' == sClose
+          else if 7 < v'.length then v'.take 7 == sCloseSep
+          else false
+        if others && ! keep then (.yes, { r1 with fa := { r1.fa with connClose := false } })
+        else (.yes, r1)
 
 /-- `MHD_add_response_header` -/
 def addHeader (r : Resp) (header content : Bytes) : Ret × Resp :=
@@ -170,11 +187,11 @@ def addHeader (r : Resp) (header content : Bytes) : Ret × Resp :=
   else if strEqCaseless header sDate then
     let r0? : Option Resp :=
       if r.fa.date then
-        match findElement r.hdrs .header sDate with
+        match eraseFirst (isHdr sDate) r.hdrs with
         | none => none                                   -- `_MHD_remove_header (response, NULL)`
-        | some i =>
+        | some (_, hs') =>
           -- FIX F4d: the flag is cleared together with the removed entry
-          some { r with hdrs := r.hdrs.eraseIdx i, fa := { r.fa with date := false } }
+          some { r with hdrs := hs', fa := { r.fa with date := false } }
       else some r
     match r0? with
     | none => (.crash, r)
@@ -203,18 +220,16 @@ def addFooter (r : Resp) (footer content : Bytes) : Ret × Resp :=
 def delHeader (r : Resp) (header content : Bytes) : Ret × Resp :=
   if r.fa.connHdr && nameIs header sConnection then delHeaderConnection r content
   else
-    match r.hdrs.findIdx? (fun h => h.name == header && h.value == content) with
+    match eraseFirst (fun h => h.name == header && h.value == content) r.hdrs with
     | none => (.no, r)
-    | some i =>
-      let k : Kind := match r.hdrs[i]? with | some h => h.kind | none => .header
-      let hs' := r.hdrs.eraseIdx i
+    | some (x, hs') =>
       -- FIX F4c: only a removed *header* entry touches the automatic flags
       let fa' : AutoFlags :=
-        if k != .header then r.fa
+        if x.kind != .header then r.fa
         else if nameIs header sTransferEncoding then { r.fa with transEnc := false }
         else if nameIs header sDate then { r.fa with date := false }
         else if nameIs header sContentLength then
-          (if (findElement hs' .header sContentLength).isNone then { r.fa with contentLength := false } else r.fa)
+          (if ! hs'.any (isHdr sContentLength) then { r.fa with contentLength := false } else r.fa)
         else r.fa
       (.yes, { r with hdrs := hs', fa := fa' })
 
